@@ -207,6 +207,11 @@ type RunCtl struct {
 	// EOFInChain: every error a fault produces also has io.EOF in its Unwrap chain (a node failing with
 	// fmt.Errorf("read: %w", io.EOF) has failed; only the bare io.EOF value means end of stream)
 	EOFInChain bool
+	// PanicAt: the PanicConverter fault panics on this chunk (0 = 2nd chunk)
+	PanicAt int
+	// LagReader: in the stream paradigms the caller starts reading the output only once the whole
+	// process is quiescent (every producer and forwarder is blocked by back-pressure)
+	LagReader bool
 	// StopAfter: rerun nodes interrupt on their first attempt only when true
 	RerunEnabled bool
 	// RerunSeen is shared by all calls of one interrupt/resume history (path -> struct{})
